@@ -1456,6 +1456,11 @@ def _swap_implicit_if_else(source: str) -> str:
             continue
         if isinstance(stmt.test, ast.NamedExpr):
             continue
+        if any(
+            core.has_ignore_comment(source, core.get_charnos(node, source))
+            for node in (stmt, *orelse)
+        ):
+            continue
         if (
             orelse
             and any(core.is_blocking(node) for node in body)
